@@ -67,6 +67,22 @@ def small(rng, lo=-9, hi=9, nz=False):
             return v
 
 
+# machine-word boundaries: values whose square / product / 4-fold leaves 32 or 64 bits, and multi-limb values.
+# The models compute in unbounded Z, so any machine-word shortcut in the C code shows up as a disagreement.
+WIDE_B = [46340, 46341, 65536, 70000, 2**31 - 1, 2**31, 2**31 + 1, 3037000499, 3037000500, 3037000501, 4000000000,
+          2**32 - 1, 2**32, 2**32 + 1, 6000000000, 2**62, 2**63 - 1, 2**63, 2**63 + 1, 2**64 - 1, 2**64, 2**64 + 1,
+          2**64 + 1]
+HUGE_B = [10**25 + 7, 2**127 + 5]      # several limbs (rare: the reference root isolation gets slow)
+WIDE_A = [1, 1, 3, 2**29, 2**30, 2**31 - 1, 2**31, 2**32 + 1, 2**61, 2**62, 2**63 - 1, 2**63, 2**64 + 3]
+WIDE_C = [2**31, 2**32 + 1, 2**62, 2**63, 2**64 + 1, 9223372030926249001, 10**30]
+
+
+def wide(rng, pool):
+    if pool is WIDE_B and rng.random() < 0.05:
+        pool = HUGE_B
+    return rng.choice([1, -1]) * rng.choice(pool)
+
+
 # ------------------------------------------------------------------------------------------------ infer_bounds
 def gen_ib(rng):
     perm = order_text(rng)
@@ -77,15 +93,22 @@ def gen_ib(rng):
     tag = "sq%d" % k
     D = Fraction(0)
     big = rng.random() < 0.06
+    wd = rng.random() < 0.07           # machine-word boundary coefficients
     exact = rng.random() < 0.45        # B = 2 A t: the square completes over the integers
+    if wd:
+        tag = "wide%d" % k
     AB = []
     for v in vs:
         A = rng.choice([1, 1, 1, 2, 3, 4, 5, 7, 9, 12]) * (1000003 if big and rng.random() < 0.5 else 1)
+        if wd and rng.random() < 0.4:
+            A = rng.choice(WIDE_A)
         if exact:
             t = rng.choice([0, 0, 1, -1, 2, -3, 5])
             B = 2 * A * t
         else:
             B = rng.choice([0, 0, 1, -1, 2, 3, -5, 7, -8, 11])
+        if wd and rng.random() < 0.6:
+            B = wide(rng, WIDE_B)
         AB.append((v, A, B))
         D += Fraction(B * B, 4 * A)
     # the constant: D_final = D - C0
@@ -102,7 +125,7 @@ def gen_ib(rng):
         C0 = int(D) - r * r if D.denominator == 1 else int(D) - r * r
     else:
         want = "Dpos"
-        C0 = int(D) - rng.choice([1, 2, 3, 5, 6, 7, 10, 11, 13, 1000, 10**12 + 1])
+        C0 = int(D) - rng.choice([1, 2, 3, 5, 6, 7, 10, 11, 13, 1000, 10**12 + 1] + (WIDE_C if wd else []))
     tag += ":" + want
     for v, A, B in AB:
         terms.append((A, {v: 2}))
@@ -244,12 +267,15 @@ def gen_fm(rng):
     if rng.random() < 0.3:
         vals[x] = value_token(rng, allow_alg=False)   # the top variable may or may not be assigned
     tags = []
+    wd = rng.random() < 0.12          # machine-word boundary coefficients
 
     def side():
         kind = rng.random()
         terms = []
         if kind < 0.45:
             lc = [(small(rng, -5, 5, nz=True), {})]
+            if wd:
+                lc = [(wide(rng, WIDE_B), {})]
             tags.append("num")
         elif kind < 0.85:
             lc = lower_poly(rng, lows_used, vals)
@@ -269,9 +295,11 @@ def gen_fm(rng):
             terms += mul_x(lower_poly(rng, lows_used, vals), x, 2)          # most likely stays quadratic: refused
             tags.append("deg2")
         if rng.random() < 0.6:
-            terms.append((small(rng), {}))
+            terms.append((wide(rng, WIDE_B + WIDE_C) if wd and rng.random() < 0.7 else small(rng), {}))
         else:
             terms += lower_poly(rng, lows_used, vals)
+        if wd and rng.random() < 0.4:
+            terms = [(c * rng.choice(WIDE_A), m) for c, m in terms]
         return terms
 
     t1, t2 = side(), side()
@@ -290,8 +318,8 @@ def gen_fm(rng):
         # bias to the pairs the table accepts
         c1 = rng.choice(["lt", "le", "gt", "ge"])
         c2 = rng.choice(["lt", "le", "gt", "ge", "eq"])
-    return "fm %s %s %s %s %s %d %s #fm:%s:%s%s" % (",".join(map(str, perm)), p1, c1, p2, c2, rng.choice([0, 0, 1, 2, 3]),
-                                                   " ".join(vals), "+".join(tags[:2]), c1, c2)
+    return "fm %s %s %s %s %s %d %s #fm:%s%s:%s%s" % (",".join(map(str, perm)), p1, c1, p2, c2, rng.choice([0, 0, 1, 2, 3]),
+                                                     " ".join(vals), "wide-" if wd else "", "+".join(tags[:2]), c1, c2)
 
 
 def generate(rng, tier):
